@@ -11,8 +11,8 @@ proof-friendly copy.
   lists equal up to order) — `σ` is an isomorphism `g → g'`; `IR.Iso g h := ∃ σ τ, Relabel g h σ τ`.
 * `IR.WF g`: neighbour lists are in range, duplicate free, symmetric and loop free. Every graph the driver parses
   satisfies it (`IR.ofSpec_ofEdges_wf`).
-* `s.work ≠ []`: the start state has a non-empty worklist (true for `IR.init` and `IR.initSt`: the Go code starts with
-  `binsToCheck = [0]`).
+* `s.work ≠ []`: the start state has a non-empty worklist (true for `IR.init` and for `IR.initSt` with at least one
+  class: the Go code starts with every class bin on `binsToCheck`).
 
 The tie with the Go code (`graph/canonical.go`) is at certificate level, by the correspondence check: the Go canonical
 graph must be identical to `IR.canonGraph`; that is the statement "the pruning never loses the maximal leaf".
@@ -86,7 +86,11 @@ example : canonGraphFrom exG' (initSt exG' 2 (fun v => if v = 2 then 1 else 0)) 
   canon_invariant_classes exRelabel 2 (by intro v hv; have : v < 3 := hv; interval_cases v <;> simp [exσ])
 
 /-- with vertex classes the canonical graph is still isomorphic to the graph -/
-theorem canon_iso_classes {g : G} (hg : WF g) (k : Nat) (cls : Nat → Nat) : Iso g (canonGraphFrom g (initSt g k cls)) :=
-  canonGraphFrom_iso hg (by simp [initSt])
+theorem canon_iso_classes {g : G} (hg : WF g) {k : Nat} (hk : 1 ≤ k) (cls : Nat → Nat) :
+    Iso g (canonGraphFrom g (initSt g k cls)) :=
+  canonGraphFrom_iso hg (initSt_work g hk cls)
+
+example : Iso exG (canonGraphFrom exG (initSt exG 2 (fun v => if v = 2 then 1 else 0))) :=
+  canon_iso_classes exG_wf (by decide) _
 
 end C01
